@@ -114,7 +114,7 @@ def build(cfg, variant=0):
     k = cfg["kind"]
     N = cfg["N"] if cfg["N"] is not None else np.inf
     num = (lambda v: np.float64(float(v))) if variant % 5 == 3 else (lambda v: float(v))
-    kw = {kk: num(v) for kk, v in cfg["p"].items()}
+    kw = {kk: num(v) for kk, v in cfg["p"].items() if kk not in cfg.get("defaults", ())}   # omitted: the library's default applies
     u = int(cfg["u"]) if cfg.get("int_u") else num(cfg["u"])
     parts = {"alpha_fixed": ("alpha_mart", "fixed_alternative_mean", None), "alpha_shrink": ("alpha_mart", "shrink_trunc", None),
              "alpha_optcomp": ("alpha_mart", "optimal_comparison", None), "bet_fixed": ("betting_mart", None, "fixed_bet"),
@@ -124,6 +124,8 @@ def build(cfg, variant=0):
         raise ValueError(k)
     tn, en, bn = parts[k]
     test = getattr(NonnegMean, tn)
+    if k == "sprt" and cfg.get("explicit_estim"):
+        en = "fixed_alternative_mean"       # a caller may name the estimator explicitly; then no eta is set at construction
     estim = getattr(NonnegMean, en) if en else None
     bet = getattr(NonnegMean, bn) if bn else None
     if variant % 3 == 1:     # positional, in the documented order
@@ -143,7 +145,8 @@ def retarget(obj, cfg):
     obj.t = float(cfg["t"])
     obj.random_order = cfg["ro"]
     for kk, v in cfg["p"].items():
-        setattr(obj, kk, float(v))
+        if kk not in cfg.get("defaults", ()):       # a parameter the caller never sets stays whatever the instance holds
+            setattr(obj, kk, float(v))
 
 
 _BUFFERS = {}
@@ -204,6 +207,8 @@ def run_impl(cfg, xs, obj=None, variant=0):
             elif cfg["kind"].startswith("bet"):
                 a = tst.bet(x)
                 out["aux"] = [float(v) for v in (np.ones(len(x)) * a)]
+                with np.errstate(all="ignore"):
+                    out["m_impl"] = [float(v) for v in (np.ones(len(x)) * tst.sjm(tst.N, tst.t, np.array(x))[3])]
             if list(x) != x0:
                 out["mutated"] = True
     except Exception as e:  # noqa
@@ -283,6 +288,31 @@ def corpus_cases():
     return out
 
 
+def documented_default(cfg, key):
+    """the value NonnegMean uses when the caller does not pass `key` (constructor / getattr defaults in NonnegMean.py)"""
+    k, u, t = cfg["kind"], cfg["u"], cfg["t"]
+    if key == "eta":
+        # estim=None: the constructor sets eta = t + (u-t)/2; with an explicit estimator the default is taken at call time
+        return t + (u - t) / 2 if (k == "sprt" and not cfg.get("explicit_estim")) else u * (1 - EPS)
+    table = {"c": F(1, 2), "d": F(100), "f": F(0), "minsd": C.frac(10 ** -6), "rate_error_2": C.frac(0.0001),
+             "lam": F(1, 2), "c_grapa_0": 1 - EPS, "c_grapa_max": 1 - EPS, "c_grapa_grow": F(0), "g": F(0)}
+    return table[key]
+
+
+def drop_to_defaults(rng, cfg):
+    """Leave a random non-empty subset of the optional parameters to the library's documented defaults: the case's
+    configuration carries the default VALUES (so model and oracles use them) and `defaults` names the keys the caller
+    does not pass."""
+    keys = [k for k in cfg["p"] if not (cfg["kind"] == "bet_fixed" and k == "lam")]
+    if not keys:
+        return cfg
+    drop = rng.sample(keys, rng.randint(1, len(keys)))
+    cfg = dict(cfg, p=dict(cfg["p"]), defaults=sorted(drop))
+    for k in drop:
+        cfg["p"][k] = documented_default(cfg, k)
+    return cfg
+
+
 def earlier_cfg(rng, cfg):
     """The configuration an instance was built and used with before being re-parametrised in place to `cfg`: a random
     one of the same kind, or (60%) one that differs from `cfg` in a FEW parameters only (often a single one: only t,
@@ -311,8 +341,22 @@ def corr_cases(rng, n, kinds=None, reuse_frac=0.15, maxlen=12):
         cfg = gen_cfg(rng, kind=rng.choice(kinds) if kinds else None)
         xs = gen_xs(rng, cfg, maxlen=maxlen)
         obj, tag = None, "fresh"
-        if rng.random() < reuse_frac:
+        if rng.random() < 0.2:
+            cfg = drop_to_defaults(rng, cfg)
+            tag = "fresh, some parameters left to the library's defaults"
+        elif rng.random() < reuse_frac:
             cfg0 = earlier_cfg(rng, cfg)
+            if "eta" in cfg["p"] and cfg["kind"] in ("sprt", "alpha_fixed", "alpha_shrink") and rng.random() < 0.35:
+                # the caller never names eta, neither when building the instance nor when re-tuning it: the default in
+                # force is the one for the parameters of the call (explicit estimator: taken at call time)
+                extra = {"explicit_estim": True} if cfg["kind"] == "sprt" else {}
+                if rng.random() < 0.7:      # only the bound (and what must follow it) differs between the two uses
+                    u0 = rng.choice([v for v in (F(1, 2), F(1), F(9, 8), F(5, 4), F(3, 2), F(2)) if v != cfg["u"]])
+                    cfg0 = dict(cfg, p=dict(cfg["p"]), u=u0, t=(cfg["t"] if cfg["t"] < u0 else u0 / 2))
+                cfg0 = dict(cfg0, p=dict(cfg0["p"]), defaults=["eta"], **extra)
+                cfg = dict(cfg, p=dict(cfg["p"]), defaults=["eta"], **extra)
+                cfg0["p"]["eta"] = documented_default(cfg0, "eta")
+                cfg["p"]["eta"] = documented_default(cfg, "eta")
             try:
                 with warnings.catch_warnings():
                     warnings.simplefilter("ignore")
@@ -641,7 +685,7 @@ def unjson(v):
 def cfg_from_json(j):
     out = {"kind": j["kind"], "N": (int(j["N"]) if j["N"] is not None else None), "t": unjson(j["t"]), "u": unjson(j["u"]),
            "ro": bool(j["ro"]), "p": {k: unjson(v) for k, v in j["p"].items()}}
-    for k in ("int_u", "long"):
+    for k in ("int_u", "long", "defaults", "explicit_estim"):
         if j.get(k):
             out[k] = j[k]
     return out
